@@ -57,11 +57,13 @@ import (
 )
 
 // sigRejectedTask is the signature of the finding of this class (see
-// TestRegression_StageRejectedByPoolNeverCompletes): workerPool.Submit drops a task without
-// telling anybody when the submitter's context is done or the pool is stopped; the stage was
-// registered as pending before, so the pipeline never completes. While known_findings.json lists
-// it, the generator does not let a Submit of a stage happen on a done context / a stopped pool
-// (everything else - done contexts while tasks wait in the queue or run - is still generated).
+// TestRegression_StageRejectedByPoolNeverCompletes_*): workerPool.Submit dropped a task without
+// telling anybody when the submitter's context was done or the pool was stopped; the stage was
+// registered as pending before, so the pipeline never completed. Repaired in /repo (74e6a91:
+// Submit reports a rejected task to the task's panic handler = the stage's error handler), listed
+// under "fixed". Should the signature ever be listed as an open finding again, the generator does
+// not let a Submit of a stage happen on a done context / a stopped pool (everything else - done
+// contexts while tasks wait in the queue or run - is still generated).
 const sigRejectedTask = "C19/pool-rejects-stage-task-silently"
 
 // qDebug prints the state of a case whose script was abandoned because a guard expired.
@@ -1565,6 +1567,15 @@ func genQSpec(t *rapid.T) *qSpec {
 		case w == 0:
 		case w == 1:
 			insert(qAction{Kind: "cancel", Arg: q}, 0)
+		case w <= 4:
+			// right after the pipeline was started: its first pooled stages wait in the queue, are
+			// held back at Submit or wait for room in a full queue
+			for pos := range script {
+				if script[pos].Kind == "start" && script[pos].Arg == q {
+					script = append(script[:pos+1], append([]qAction{{Kind: "cancel", Arg: q}}, script[pos+1:]...)...)
+					break
+				}
+			}
 		default:
 			insert(qAction{Kind: "cancel", Arg: q}, nq)
 		}
